@@ -1,0 +1,24 @@
+//go:build verif
+
+package rtmp
+
+import "github.com/q191201771/lal/pkg/base"
+
+// Verification hooks (build tag `verif` only). They add exported shims around private
+// names; nothing in the untagged build changes.
+
+// VerifMessage2Chunks exposes message2Chunks with an explicit chunk size and previous header.
+func VerifMessage2Chunks(message []byte, header *base.RtmpHeader, prevHeader *base.RtmpHeader, chunkSize int) []byte {
+	return message2Chunks(message, header, prevHeader, chunkSize)
+}
+
+// VerifMsg returns the message a ChunkComposer completed (valid during the callback only).
+func (stream *Stream) VerifMsg() base.RtmpMsg {
+	return stream.toAvMsg()
+}
+
+// VerifSetServerWriteParams shrinks the server session's write queue and A/V write timeout.
+func VerifSetServerWriteParams(chanSize int, writeAvTimeoutMs int) {
+	wChanSize = chanSize
+	serverSessionWriteAvTimeoutMs = writeAvTimeoutMs
+}
